@@ -43,6 +43,7 @@ fn main() {
         "worker" => orch::worker_main(&args),
         "run" => orch::run_main(&args),
         "replay" => orch::replay_main(&args),
+        "trycase" => orch::trycase_main(&args),
         "one" => {
             let p = props::by_id(&arg(&args, "--prop").expect("--prop")).expect("unknown property");
             let seed: u64 = arg(&args, "--seed").map(|s| s.parse().unwrap()).unwrap_or(DEFAULT_SEED);
